@@ -1067,3 +1067,16 @@ package mail
 //@   ensures[C20:has-iff-recorded] r == (m.sendError != nil)
 //@ func mail.Msg.SendError () (r)
 //@   ensures[C20:the-recorded-error] r == m.sendError
+
+// C11 (continued): the PGP layer (multipart/encrypted, multipart/signed for PGP) is a layer like the others: the
+// boundary it is written with is cached in the Msg under the layer's type and reused by later renders
+//@ ghost field usedPGP string
+//@ ghost field pgpkey string
+//@ at mail.msgWriter.writeMsg entry ghost[C11:g] mw.usedPGP = ""
+//@ at mail.msgWriter.writeMsg mail.msgWriter.startMP#5 after ghost[C11:g] mw.usedPGP = r0
+//@ at mail.msgWriter.writeMsg mail.msgWriter.startMP#5 after ghost[C11:g] mw.pgpkey = arg1
+//@ at mail.msgWriter.writeMsg mail.msgWriter.startMP#6 after ghost[C11:g] mw.usedPGP = r0
+//@ at mail.msgWriter.writeMsg mail.msgWriter.startMP#6 after ghost[C11:g] mw.pgpkey = arg1
+//@ func mail.msgWriter.writeMsg (msg)
+//@   ensures[C11:pgp-boundary-cached] mw.usedPGP != "" ==> ((mw.pgpkey in msg.multiPartBoundary) && msg.multiPartBoundary[mw.pgpkey] == mw.usedPGP)
+//@   ensures[C11:pgp-boundary-once] forall k string :: (k == mw.pgpkey && mw.err == nil && msg.boundary == "" && mw.usedPGP != "" && old((k in msg.multiPartBoundary) && msg.multiPartBoundary[k] != "")) ==> mw.usedPGP == old(msg.multiPartBoundary[k])
